@@ -1,652 +1,28 @@
 package c01
 
 import (
-	"bufio"
-	"database/sql"
-	"encoding/base64"
-	"encoding/json"
 	"fmt"
-	"net/http"
-	"net/http/httptest"
-	"os"
-	"os/exec"
-	"path/filepath"
-	"sort"
-	"strconv"
-	"strings"
-	"sync"
-	"syscall"
 	"testing"
-	"time"
 
-	_ "modernc.org/sqlite"
-
-	"github.com/nuetzliches/hookaido/internal/app"
-	"github.com/nuetzliches/hookaido/internal/queue"
+	"github.com/nuetzliches/hookaido/internal/verifkit/crashkit"
 	"github.com/nuetzliches/hookaido/internal/verifkit/runner"
-	"github.com/nuetzliches/hookaido/internal/verifkit/verifcrash"
-	"github.com/nuetzliches/hookaido/internal/verifkit/verifcrashlibc"
 )
 
-var scripts = map[string]func() []step{"app": scriptApp, "wal": scriptWAL}
-
-// ---- child: runs the scripted history and dies at the configured crash point -------------------------------
-
-func runChild(scn string) {
-	verifcrash.Init()
-	verifcrashlibc.Install()
-	dir := os.Getenv("VERIF_CRASH_DIR")
-	armEarly := os.Getenv("VERIF_CRASH_ARM_EARLY") != "" // scenario "open": crash points inside open + migrate
-	if armEarly {
-		verifcrash.Arm()
-	}
-	a, err := app.VerifBoot(app.VerifBootOptions{Dir: dir, ConfigText: configText(18080)})
-	if err != nil {
-		fmt.Fprintln(os.Stderr, "child boot:", err)
-		os.Exit(4)
-	}
-	steps := scripts[scn]()
-	var leases []leaseRef
-	verifcrash.Arm()
-	for i, st := range steps {
-		verifcrash.Log(fmt.Sprintf("START %d", i))
-		w := &ackWriter{ResponseRecorder: httptest.NewRecorder(), onAck: func(code int) { verifcrash.Log(fmt.Sprintf("ACK %d %d", i, code)) }}
-		lease := func(ix int) (string, bool) {
-			if ix >= len(leases) {
-				return "", false
-			}
-			return leases[ix].Lease, true
-		}
-		pull := func(op string, body any) {
-			b, _ := json.Marshal(body)
-			a.Pull.ServeHTTP(w, rawPost("/e/"+op, "Authorization: Bearer g1\nContent-Type: application/json", b))
-		}
-		switch st.Kind {
-		case "ingress":
-			a.Ingress.ServeHTTP(w, rawPost(st.Route, "X-Req: "+st.Payload, []byte(st.Payload)))
-		case "publish":
-			a.Admin.ServeHTTP(w, rawPost("/messages/publish", "X-Hookaido-Audit-Reason: verif\nContent-Type: application/json", publishBody(st.Items)))
-		case "dequeue":
-			pull("dequeue", map[string]any{"batch": st.Batch, "lease_ttl": "30s"})
-			var db dequeueBody
-			if json.Unmarshal(w.Body.Bytes(), &db) == nil {
-				for _, it := range db.Items {
-					p, _ := base64.StdEncoding.DecodeString(it.PayloadB64)
-					leases = append(leases, leaseRef{ID: it.ID, Lease: it.LeaseID, Route: it.Route, Payload: p, Attempt: it.Attempt})
-				}
-				verifcrash.Log(fmt.Sprintf("BODY %d %s", i, strings.TrimSpace(w.Body.String())))
-			}
-		case "ack", "nack", "nackdead":
-			l, ok := lease(st.Lease)
-			if !ok {
-				verifcrash.Log(fmt.Sprintf("SCRIPT-ERROR %d lease index %d not available", i, st.Lease))
-				os.Exit(5)
-			}
-			switch st.Kind {
-			case "ack":
-				pull("ack", map[string]any{"lease_id": l})
-			case "nack":
-				pull("nack", map[string]any{"lease_id": l, "delay": st.Delay})
-			default:
-				pull("nack", map[string]any{"lease_id": l, "dead": true, "reason": "boom"})
-			}
-		case "ackbatch":
-			var ids []string
-			for _, ix := range st.Leases {
-				l, ok := lease(ix)
-				if !ok {
-					verifcrash.Log(fmt.Sprintf("SCRIPT-ERROR %d lease index %d not available", i, ix))
-					os.Exit(5)
-				}
-				ids = append(ids, l)
-			}
-			pull("ack", map[string]any{"lease_ids": ids})
-		case "checkpoint":
-			if s, ok := a.Store.(*queue.SQLiteStore); ok {
-				queue.VerifCheckpoint(s)
-			}
-			verifcrash.Log(fmt.Sprintf("ACK %d 0", i))
-		}
-	}
-	verifcrash.Disarm()
-	verifcrash.Log(fmt.Sprintf("DONE %d", verifcrash.Count()))
-	if os.Getenv("VERIF_CRASH_LABELS") != "" {
-		verifcrash.Log("LABELS " + strings.Join(verifcrash.Labels(), ","))
-	}
-	os.Exit(0) // no orderly shutdown: even the "clean" run abandons the database like a killed process
-}
-
-// ---- parent -----------------------------------------------------------------------------------------
-
-type event struct {
-	started bool
-	ack     int // 0 = none
-	acked   bool
-	body    string
-}
-
-func parseLog(path string, n int) ([]event, int, string) {
-	evs := make([]event, n)
-	done := -1
-	labels := ""
-	f, err := os.Open(path)
-	if err != nil {
-		return evs, done, labels
-	}
-	defer f.Close()
-	sc := bufio.NewScanner(f)
-	sc.Buffer(make([]byte, 1<<20), 1<<24)
-	for sc.Scan() {
-		fs := strings.SplitN(sc.Text(), " ", 3)
-		if len(fs) < 2 {
-			continue
-		}
-		i, _ := strconv.Atoi(fs[1])
-		switch fs[0] {
-		case "START":
-			evs[i].started = true
-		case "ACK":
-			evs[i].acked = true
-			if len(fs) > 2 {
-				evs[i].ack, _ = strconv.Atoi(fs[2])
-			}
-		case "BODY":
-			if len(fs) > 2 {
-				evs[i].body = fs[2]
-			}
-		case "DONE":
-			done = i
-		case "LABELS":
-			labels = strings.TrimPrefix(sc.Text(), "LABELS ")
-		}
-	}
-	return evs, done, labels
-}
-
-// msg is the expected state of one message in one admissible world.
-type msg struct {
-	Key, Route, Target string
-	Payload            string
-	ID                 string // known for published messages and after the first dequeue
-	State              string
-	Attempt            int
-	Hdr                [2]string // a header that must be stored with the message
-}
-
-type world map[string]*msg
-
-func (w world) clone() world {
-	c := world{}
-	for k, v := range w {
-		m := *v
-		c[k] = &m
-	}
-	return c
-}
-
-func ingressKey(route, target, payload string) string { return route + "|" + target + "|" + payload }
-
-// admissible computes every world the property allows for the recorded log: acknowledged operations applied
-// exactly, the one started-but-unacknowledged operation applied, not applied, or (fan-out ingress only) applied
-// for a prefix of its targets; operations that never started not applied.
-func admissible(steps []step, evs []event) ([]world, string) {
-	worlds := []world{{}}
-	var leases []string // message key per lease index, in order of appearance
-	applyDequeue := func(w world, body string) ([]string, string) {
-		var db dequeueBody
-		if err := json.Unmarshal([]byte(body), &db); err != nil {
-			return nil, "dequeue body does not parse: " + err.Error()
-		}
-		var keys []string
-		for _, it := range db.Items {
-			p, _ := base64.StdEncoding.DecodeString(it.PayloadB64)
-			var m *msg
-			if x, ok := w["id:"+it.ID]; ok {
-				m = x
-			} else if x, ok := w[ingressKey(it.Route, "pull", string(p))]; ok {
-				m = x
-			}
-			if m == nil {
-				return nil, fmt.Sprintf("dequeue returned a message nobody sent (id %s route %s payload %q)", it.ID, it.Route, p)
-			}
-			if m.Payload != string(p) {
-				return nil, fmt.Sprintf("dequeue returned %s with payload %q, want %q", m.Key, p, m.Payload)
-			}
-			m.State, m.Attempt, m.ID = "leased", it.Attempt, it.ID
-			keys = append(keys, m.Key)
-		}
-		return keys, ""
-	}
-	for i, st := range steps {
-		ev := evs[i]
-		if !ev.started {
-			break
-		}
-		inflight := !ev.acked || (st.Kind == "dequeue" && ev.body == "")
-		var next []world
-		for _, w := range worlds {
-			switch st.Kind {
-			case "checkpoint":
-				next = append(next, w)
-			case "ingress":
-				full := w.clone()
-				prefixes := []world{}
-				for k := 0; k <= len(st.Targets); k++ {
-					p := w.clone()
-					for _, t := range st.Targets[:k] {
-						key := ingressKey(st.Route, t, st.Payload)
-						p[key] = &msg{Key: key, Route: st.Route, Target: t, Payload: st.Payload, State: "queued", Hdr: [2]string{"X-Req", st.Payload}}
-					}
-					prefixes = append(prefixes, p)
-					full = p
-				}
-				switch {
-				case inflight:
-					next = append(next, prefixes...)
-				case ev.ack == http.StatusAccepted:
-					next = append(next, full)
-				default:
-					// refused (e.g. 503): copies for earlier targets may stay (C12), nothing else
-					next = append(next, prefixes[:len(prefixes)-1]...)
-				}
-			case "publish":
-				all := w.clone()
-				for _, it := range st.Items {
-					key := "id:" + it.ID
-					all[key] = &msg{Key: key, Route: it.Route, Target: "pull", Payload: it.Payload, ID: it.ID, State: "queued", Hdr: [2]string{"X-Pub", it.ID}}
-				}
-				switch {
-				case inflight:
-					next = append(next, w, all)
-				case ev.ack == http.StatusOK:
-					next = append(next, all)
-				default:
-					next = append(next, w)
-				}
-			case "dequeue":
-				if !inflight {
-					c := w.clone()
-					keys, why := applyDequeue(c, ev.body)
-					if why != "" {
-						return nil, why
-					}
-					_ = keys
-					next = append(next, c)
-					continue
-				}
-				// unacknowledged dequeue: any set of at most Batch ready pull messages may have been leased
-				var ready []string
-				for k, m := range w {
-					if m.State == "queued" && m.Route == "/p" {
-						ready = append(ready, k)
-					}
-				}
-				sort.Strings(ready)
-				for mask := 0; mask < 1<<len(ready); mask++ {
-					c := w.clone()
-					n := 0
-					for j, k := range ready {
-						if mask&(1<<j) != 0 {
-							c[k].State = "leased"
-							c[k].Attempt++
-							n++
-						}
-					}
-					if n <= st.Batch {
-						next = append(next, c)
-					}
-				}
-			case "ack", "nack", "nackdead", "ackbatch":
-				idx := st.Leases
-				if st.Kind != "ackbatch" {
-					idx = []int{st.Lease}
-				}
-				applied := w.clone()
-				for _, ix := range idx {
-					if ix >= len(leases) {
-						return nil, fmt.Sprintf("step %d uses lease %d which no acknowledged dequeue returned", i, ix)
-					}
-					m := applied[leases[ix]]
-					if m == nil {
-						continue
-					}
-					switch st.Kind {
-					case "ack", "ackbatch":
-						delete(applied, leases[ix])
-					case "nack":
-						m.State = "queued"
-					case "nackdead":
-						m.State = "dead"
-					}
-				}
-				ok := ev.ack == http.StatusNoContent || ev.ack == http.StatusOK
-				switch {
-				case inflight:
-					next = append(next, w, applied)
-				case ok:
-					next = append(next, applied)
-				default:
-					next = append(next, w)
-				}
-			}
-		}
-		// lease bookkeeping is identical in all worlds (it comes from the acknowledged dequeue bodies)
-		if st.Kind == "dequeue" && !inflight {
-			var db dequeueBody
-			json.Unmarshal([]byte(ev.body), &db)
-			for _, it := range db.Items {
-				p, _ := base64.StdEncoding.DecodeString(it.PayloadB64)
-				if _, ok := next[0]["id:"+it.ID]; ok {
-					leases = append(leases, "id:"+it.ID)
-				} else {
-					leases = append(leases, ingressKey(it.Route, "pull", string(p)))
-				}
-			}
-		}
-		worlds = next
-		if inflight {
-			break
-		}
-	}
-	return worlds, ""
-}
-
-type row struct {
-	ID, Route, Target, State string
-	Attempt                  int
-	Payload                  []byte
-	Headers                  map[string]string
-}
-
-func readRows(dbPath string) ([]row, string) {
-	db, err := sql.Open("sqlite", dbPath)
-	if err != nil {
-		return nil, "open: " + err.Error()
-	}
-	defer db.Close()
-	var integ string
-	if err := db.QueryRow("PRAGMA integrity_check").Scan(&integ); err != nil || integ != "ok" {
-		return nil, fmt.Sprintf("integrity_check = %q %v", integ, err)
-	}
-	var cq, cl, rq, rl int
-	db.QueryRow("SELECT queued, leased FROM queue_counters WHERE id=1").Scan(&cq, &cl)
-	db.QueryRow("SELECT COUNT(*) FROM queue_items WHERE state='queued'").Scan(&rq)
-	db.QueryRow("SELECT COUNT(*) FROM queue_items WHERE state='leased'").Scan(&rl)
-	if cq != rq || cl != rl {
-		return nil, fmt.Sprintf("queue_counters (queued=%d leased=%d) differ from the real counts (%d, %d)", cq, cl, rq, rl)
-	}
-	rs, err := db.Query("SELECT id, route, target, state, attempt, payload, COALESCE(headers_json,'') FROM queue_items ORDER BY rowid")
-	if err != nil {
-		return nil, "select: " + err.Error()
-	}
-	defer rs.Close()
-	var out []row
-	for rs.Next() {
-		var r row
-		var hj string
-		if err := rs.Scan(&r.ID, &r.Route, &r.Target, &r.State, &r.Attempt, &r.Payload, &hj); err != nil {
-			return nil, "scan: " + err.Error()
-		}
-		if hj != "" {
-			if err := json.Unmarshal([]byte(hj), &r.Headers); err != nil {
-				return nil, fmt.Sprintf("half-written message %s: headers_json does not parse", r.ID)
-			}
-		}
-		out = append(out, r)
-	}
-	return out, ""
-}
-
-func rowKey(r row, w world) string {
-	if _, ok := w["id:"+r.ID]; ok {
-		return "id:" + r.ID
-	}
-	return ingressKey(r.Route, r.Target, string(r.Payload))
-}
-
-func matches(rows []row, w world) string {
-	seen := map[string]bool{}
-	for _, r := range rows {
-		k := rowKey(r, w)
-		m := w[k]
-		if m == nil {
-			return fmt.Sprintf("stored message %s (%s %s %q %s) is not expected", r.ID, r.Route, r.Target, r.Payload, r.State)
-		}
-		if seen[k] {
-			return fmt.Sprintf("message %s stored twice", k)
-		}
-		seen[k] = true
-		if m.Route != r.Route || m.Target != r.Target || m.Payload != string(r.Payload) {
-			return fmt.Sprintf("message %s has fields of another request (%s %s %q)", k, r.Route, r.Target, r.Payload)
-		}
-		if m.State != r.State || m.Attempt != r.Attempt {
-			return fmt.Sprintf("message %s is %s/attempt %d, expected %s/attempt %d", k, r.State, r.Attempt, m.State, m.Attempt)
-		}
-		if m.Hdr[0] != "" && r.Headers[m.Hdr[0]] != m.Hdr[1] {
-			return fmt.Sprintf("message %s lost header %s", k, m.Hdr[0])
-		}
-	}
-	for k := range w {
-		if !seen[k] {
-			return fmt.Sprintf("message %s is missing", k)
-		}
-	}
-	return ""
-}
-
-// judge recovers the database the dead child left behind through the production boot path and checks it.
-func judge(dir string, steps []step, evs []event, portBase int) string {
-	worlds, why := admissible(steps, evs)
-	if why != "" {
-		return why
-	}
-	a, err := app.VerifBoot(app.VerifBootOptions{Dir: dir, ConfigText: configText(portBase)})
-	if err != nil {
-		return "queue refuses to open after the crash: " + err.Error()
-	}
-	rows, why := readRows(filepath.Join(dir, "hookaido.db"))
-	if why != "" {
-		a.Shutdown()
-		return why
-	}
-	var matched world
-	first := ""
-	for _, w := range worlds {
-		d := matches(rows, w)
-		if d == "" {
-			matched = w
-			break
-		}
-		if first == "" {
-			first = d
-		}
-	}
-	if matched == nil {
-		a.Shutdown()
-		return fmt.Sprintf("contents after restart match none of the %d admissible outcomes (e.g. %s); rows: %s", len(worlds), first, rowsText(rows))
-	}
-	// offered for delivery again: once every lease has expired each unsettled message is dequeued exactly once
-	future := time.Now().Add(2 * time.Hour)
-	got := map[string]int{}
-	for _, rt := range [][2]string{{"/p", "pull"}, {"/f", fanTargets[0]}, {"/f", fanTargets[1]}} {
-		resp, err := a.Store.Dequeue(queue.DequeueRequest{Route: rt[0], Target: rt[1], Batch: 100, Now: future, LeaseTTL: time.Second})
-		if err != nil {
-			a.Shutdown()
-			return "dequeue after restart failed: " + err.Error()
-		}
-		for _, e := range resp.Items {
-			k := rowKey(row{ID: e.ID, Route: e.Route, Target: e.Target, Payload: e.Payload}, matched)
-			got[k]++
-			m := matched[k]
-			if m == nil || m.Payload != string(e.Payload) || (m.Hdr[0] != "" && e.Headers[m.Hdr[0]] != m.Hdr[1]) {
-				a.Shutdown()
-				return fmt.Sprintf("redelivery after restart returned %s with altered content", k)
-			}
-		}
-	}
-	a.Shutdown()
-	for k, m := range matched {
-		want := 1
-		if m.State == "dead" {
-			want = 0
-		}
-		if got[k] != want {
-			return fmt.Sprintf("message %s (%s) was offered %d time(s) after restart and lease expiry, want %d", k, m.State, got[k], want)
-		}
-	}
-	return ""
-}
-
-func rowsText(rows []row) string {
-	var s []string
-	for _, r := range rows {
-		s = append(s, fmt.Sprintf("%s|%s|%q|%s|%d", r.Route, r.Target, r.Payload, r.State, r.Attempt))
-	}
-	return strings.Join(s, " ; ")
-}
-
-func spawn(scn, dir string, at int, extra ...string) (killed bool, out string, err error) {
-	os.RemoveAll(dir)
-	os.MkdirAll(dir, 0o755)
-	cmd := exec.Command(os.Args[0], "-test.run", "^TestCheck$", "-test.timeout", "0")
-	cmd.Env = append(os.Environ(), "VERIF_CRASH_CHILD="+scn, "VERIF_CRASH_DIR="+dir, fmt.Sprintf("VERIF_CRASH_AT=%d", at), "VERIF_CRASH_LOG="+filepath.Join(dir, "side.log"))
-	cmd.Env = append(cmd.Env, extra...)
-	var buf strings.Builder
-	cmd.Stdout, cmd.Stderr = &buf, &buf
-	done := make(chan error, 1)
-	if err := cmd.Start(); err != nil {
-		return false, "", err
-	}
-	go func() { done <- cmd.Wait() }()
-	select {
-	case e := <-done:
-		if e == nil {
-			return false, buf.String(), nil
-		}
-		if ee, ok := e.(*exec.ExitError); ok {
-			if ws, ok := ee.Sys().(syscall.WaitStatus); ok && ws.Signaled() && ws.Signal() == syscall.SIGKILL {
-				return true, buf.String(), nil
-			}
-		}
-		return false, buf.String(), e
-	case <-time.After(60 * time.Second):
-		cmd.Process.Kill()
-		return false, buf.String(), fmt.Errorf("child hung")
-	}
-}
-
 func TestCheck(t *testing.T) {
-	if scn := os.Getenv("VERIF_CRASH_CHILD"); scn != "" {
-		runChild(scn)
-		return
-	}
+	crashkit.MaybeChild()
 	r := runner.Start("C01", "fault_enumeration")
-	scratch := runner.Scratch()
-	type scen struct {
-		name, script string
-		armEarly     bool
-	}
-	scens := []scen{{"app", "app", false}}
+	scens := []crashkit.Scenario{{Name: "app", Script: "app"}, {Name: "wal", Script: "wal"}}
 	if r.Thorough() {
-		scens = append(scens, scen{"wal", "wal", false}, scen{"open+app", "app", true})
-	} else {
-		scens = append(scens, scen{"wal", "wal", false})
+		scens = append(scens, crashkit.Scenario{Name: "open+app", Script: "app", ArmEarly: true}, crashkit.Scenario{Name: "lease", Script: "lease"})
 	}
-	for _, sc := range scens {
-		steps := scripts[sc.script]()
-		var extra []string
-		if sc.armEarly {
-			extra = append(extra, "VERIF_CRASH_ARM_EARLY=1")
-		}
-		// 1. measure K (and check the uncrashed run: every operation acknowledged, contents as expected)
-		d0 := filepath.Join(scratch, "c01-"+sc.name+"-count")
-		killed, out, err := spawn(sc.script, d0, 0, append(extra, "VERIF_CRASH_LABELS=1")...)
-		if err != nil || killed {
-			r.Infra("%s: counting run failed: %v %s", sc.name, err, out)
-			continue
-		}
-		evs, K, labels := parseLog(filepath.Join(d0, "side.log"), len(steps))
-		if K <= 0 {
-			r.Infra("%s: counting run reported no crash points: %s", sc.name, out)
-			continue
-		}
-		if why := judge(d0, steps, evs, 21000); why != "" {
-			r.Violation("c01:"+sc.name+":no-crash", fmt.Sprintf("[%s] after the complete history (process abandoned without shutdown): %s", sc.name, why), map[string]any{"scenario": sc.name, "crash_at": 0}, nil)
-		}
-		kinds := map[string]int{}
-		for _, l := range strings.Split(labels, ",") {
-			kinds[l]++
-		}
-		r.Set("scenario:"+sc.name, map[string]any{"crash_points": K, "steps": len(steps), "crash_point_kinds": kinds})
-		// 2. every crash point
-		var mu sync.Mutex
-		var wg sync.WaitGroup
-		jobs := make(chan int, K)
-		for n := 1; n <= K; n++ {
-			jobs <- n
-		}
-		close(jobs)
-		classes := map[string]int{}
-		for w := 0; w < 16; w++ {
-			wg.Add(1)
-			go func(w int) {
-				defer wg.Done()
-				for n := range jobs {
-					dir := filepath.Join(scratch, fmt.Sprintf("c01-%s-w%d", sc.name, w))
-					killed, out, err := spawn(sc.script, dir, n, extra...)
-					if err != nil || !killed {
-						r.Infra("%s: crash point %d: child was not killed (%v) %s", sc.name, n, err, out)
-						continue
-					}
-					evs, _, _ := parseLog(filepath.Join(dir, "side.log"), len(steps))
-					why := judge(dir, steps, evs, 21003+3*w)
-					last, acked := -1, 0
-					for i, e := range evs {
-						if e.started {
-							last = i
-						}
-						if e.acked {
-							acked++
-						}
-					}
-					mu.Lock()
-					inflight := "between-operations"
-					if last >= 0 && !evs[last].acked {
-						inflight = "inside:" + steps[last].Kind
-					}
-					classes[inflight]++
-					mu.Unlock()
-					r.Add("evaluations", 1)
-					r.Distinct(fmt.Sprintf("%s:step%d:%s", sc.name, last, inflight))
-					if why != "" {
-						kind := "boot"
-						if last >= 0 {
-							kind = steps[last].Kind
-						}
-						r.Violation(fmt.Sprintf("c01:%s:%s", sc.name, kind), fmt.Sprintf("[%s] killed before crash point %d/%d (last started operation %d %s, %d acknowledged): %s", sc.name, n, K, last, kind, acked, why),
-							map[string]any{"engine": "crash", "scenario": sc.name, "crash_at": n, "of": K},
-							func() bool {
-								d2 := filepath.Join(scratch, fmt.Sprintf("c01-%s-recheck-w%d", sc.name, w))
-								k2, _, e2 := spawn(sc.script, d2, n, extra...)
-								if e2 != nil || !k2 {
-									return false
-								}
-								ev2, _, _ := parseLog(filepath.Join(d2, "side.log"), len(steps))
-								return judge(d2, steps, ev2, 21003+3*w) != ""
-							})
-					}
-				}
-			}(w)
-		}
-		wg.Wait()
-		r.Set("crash_classes:"+sc.name, classes)
-		r.Sample(map[string]any{"scenario": sc.name, "crash_points": K, "example": "SIGKILL before the n-th file-mutating syscall, n = 1.." + strconv.Itoa(K)})
+	genLen := runner.Pick(r, 2, 3)
+	for i := 0; i < crashkit.GenCount(genLen); i++ {
+		scens = append(scens, crashkit.Scenario{Name: fmt.Sprintf("gen%d-%d", genLen, i), Script: fmt.Sprintf("gen:%d:%d", genLen, i)})
 	}
+	crashkit.Enumerate(r, scens)
 	r.Assume("process death only (page cache survives): crash points are 'before each file-mutating syscall SQLite issues' (write/pwrite64/fsync/ftruncate/unlink/rename/openat|O_CREAT ...); power loss (dropping un-fsynced writes) is not modelled")
 	r.Assume("acknowledgement = first WriteHeader/Write on the ResponseWriter (earliest possible instant)")
 	r.Assume("interleavings of concurrent requests are explored at store level by C03/C12; here the history is sequential")
-	r.Set("rule", "for each scripted history (ingress on a pull route and on a 2-target fan-out route, Admin publish incl. a refused duplicate batch, pull dequeue/ack/nack/dead-letter/batch ack, explicit WAL checkpoints) the child process is SIGKILLed before its n-th file-mutating SQLite syscall for every n; the parent restarts through the production boot path and requires: database opens, integrity_check ok, counters consistent, contents equal one of the admissible outcomes (acknowledged operations exactly, the one unacknowledged operation applied / not applied / fan-out prefix), every unsettled message offered again exactly once after lease expiry with identical payload and headers; non-trivial = distinct (scenario, last started operation, inside/between) classes")
+	r.Set("rule", "for each scripted history (ingress on a pull route and on a 2-target fan-out route, Admin publish incl. a refused duplicate batch, pull dequeue/ack/nack/dead-letter/batch ack, explicit WAL checkpoints; thorough: also crash points inside open+migrate and a lease-centred history; plus EVERY history of length 2 (thorough: 3) over {ingress pull, ingress fan-out, publish 2 items, dequeue 2, ack, nack, dead-letter the oldest unused lease}) the child process is SIGKILLed before its n-th file-mutating SQLite syscall for every n; the parent restarts through the production boot path and requires: database opens, integrity_check ok, counters consistent, contents equal one of the admissible outcomes (acknowledged operations exactly, the one unacknowledged operation applied / not applied / fan-out prefix), every unsettled message offered again exactly once after lease expiry with identical payload and headers; non-trivial = distinct (scenario, last started operation, inside/between) classes")
 	r.Finish()
 }
-
-var _ = httptest.NewRecorder
